@@ -16,6 +16,9 @@ case = {
 
 ops (every index is taken modulo the current number of values; not applicable -> skipped):
   ["append", v]              ["remove", i]            ["replace", i, v]
+                             v that is no value of the list kind (refusable_value: '', blanks around
+                             it, an embedded separator, a bare line break) must be REFUSED with
+                             ValueError by append / replace / ref_set and leave no trace
   ["ref_set", i, v, fresh]   ["ref_remove", i, fresh]   fresh: take the reference now (true) or
                                                         use one captured when the view was opened
   ["remove_absent", v]       ["replace_absent", v, w]   -> ValueError expected
@@ -228,6 +231,24 @@ def valid_new_value(kind, v):
                for l in lines[1:])
 
 
+def refusable_value(kind, v):
+    """``v`` is no value of the list kind, for a reason the statement's splitting rule itself gives.
+
+    '' (an empty item), blanks around it, an embedded separator (ws: any blank; comma: ','), or a
+    line break that is not followed by a continuation marker and text.  Handing such a text to
+    append / replace / ValueReference.value must be refused (ValueError); the splitting rule could
+    never give it back as one item.  Not in this class (nothing is demanded): blank-only texts (the
+    tokenizer asserts non-blank input) and texts with a line whose first non-blank character is '#'.
+    """
+    if v == "":
+        return True
+    if not all(_ok_char(c) or c == "\n" for c in v) or v.strip(" \t\n") == "":
+        return False
+    if any(l.lstrip(" \t").startswith("#") for l in v.split("\n")):
+        return False
+    return not valid_new_value(kind, v)
+
+
 # ------------------------------------------------------------------------------------------
 # Hypothesis strategies
 
@@ -317,6 +338,21 @@ NEW_VALUE = {
 }
 
 
+# texts that are no value of the kind (see refusable_value); "", "y, z", " z" are refused by both kinds
+BAD_VALUES = {"ws": ["", "y z", "y, z", " z", "z ", "y\tz", "y\n z", "z\n", "amd64 i386"],
+              "comma": ["", "y, z", "y,z", " z", "z ", ",", "z,", ",z", "y\nz", "z\n", "a (>= 1), b"]}
+BAD_VALUE = {
+    "ws": st.one_of(st.sampled_from(BAD_VALUES["ws"]),
+                    st.builds(lambda a, s, b: a + s + b, ws_word, ws_sep, ws_word),
+                    st.builds(lambda a, s, b: a + s + b, st.sampled_from(["", " "]), ws_word,
+                              st.sampled_from([" ", "\t", "\n"]))),
+    "comma": st.one_of(st.sampled_from(BAD_VALUES["comma"]),
+                       st.builds(lambda a, s, b: a + s + b, cm_item, st.sampled_from([",", ", ", " ,"]),
+                                 st.one_of(cm_item, st.just(""))),
+                       st.builds(lambda a, b: a + b, st.sampled_from([" ", "\t"]), cm_item)),
+}
+
+
 COMMENT_TEXTS = ["c", "about the next one", "", "#", "# a, b", "#x", " padded ", "a, b", "é 漢", "#\tc ,"]
 _comment_text = st.one_of(st.sampled_from(COMMENT_TEXTS), st.sampled_from(COMMENT_TEXTS),
                           st.text(alphabet=ALPHA + " ,", min_size=1, max_size=4))
@@ -331,7 +367,12 @@ def _op_strategy(kind):
     append = st.tuples(st.just("append"), v)
     comment = st.tuples(st.just("append_comment"), _comment_text)
     ref_set = st.tuples(st.just("ref_set"), idx, v, st.booleans())
+    bad = BAD_VALUE[kind]
+    bad_append = st.tuples(st.just("append"), bad)
     one = st.one_of(
+        bad_append,                                         # refused: ValueError, no trace
+        st.tuples(st.just("replace"), idx, bad),
+        st.tuples(st.just("ref_set"), idx, bad, st.booleans()),
         append,
         append,
         st.tuples(st.just("remove"), idx),
@@ -365,6 +406,7 @@ def _op_strategy(kind):
         st.tuples(comment, append).map(list),                       # a remark above a new entry
         st.tuples(st.just(("append_newline",)), append).map(list),  # a new entry on its own line
         st.tuples(st.just(("reenter",)), st.tuples(st.just("ref_set"), idx, v, st.just(False))).map(list),
+        st.tuples(bad_append, append).map(list),                    # a refused value, then a good one
     )
 
 
@@ -378,7 +420,10 @@ _observe = st.sampled_from([True, True, False])
 _noop = st.integers(0, 9)
 _reopens = st.integers(0, 2)
 _noop_op = st.sampled_from([("reopen",), ("reopen",), ("reenter",), ("read", "refs"), ("read", "iter"),
-                            ("formatter", "lib", None), ("probe_open", "refs"), ("probe_close",)])
+                            ("formatter", "lib", None), ("probe_open", "refs"), ("probe_close",),
+                            # refused by both kinds: the only thing that "happened" is an error
+                            ("append", "y, z"), ("append", ""), ("replace", 0, "y, z"),
+                            ("ref_set", 1, " z", True), ("remove_absent", "no such value")])
 
 
 @st.composite
@@ -471,6 +516,15 @@ def enum_cases(maxrest, pairs):
                 more += [[["append", "z"], ["probe_open", "refs"], ["probe_close"], ["remove", 0]],
                          [["probe_open", "refs"], ["replace", n - 1, "z"], ["reopen"], ["probe_close"]],
                          [["read", "refs"]], [["read", "refs"], ["reenter"], ["read", "iter"]]]
+                # a mutator refuses its argument (ValueError), the caller goes on normally
+                bad = BAD_VALUES[kind]
+                more += [[["append", bad[1]]], [["append", ""]], [["append", bad[3]], ["reenter"]],
+                         [["append", bad[2]], ["append", "z"]], [["remove_absent", "nope"]],
+                         [["replace", 0, bad[1]], ["reopen"], ["append", "z"]]]
+                for i in range(n):
+                    more += [[["replace", i, bad[1 + i % 4]]] if i % 2 == 0 else
+                             [["ref_set", i, bad[1 + i % 4], True]]]
+                more += [[["ref_set", n - 1, bad[2], False], ["reenter"], ["ref_set", 0, "", False]]]
                 hists += [(h, k % 3 != 1) for k, h in enumerate(more)]
                 for h, observe in hists:
                     yield {"kind": kind, "name": "F", "head": ["A: 1"], "first": first, "rest": rest,
